@@ -51,8 +51,11 @@ def group_checks(case, obs, out):
                 continue
             # excuses: a fault plan directive fired, a subscription-changing call or topic metadata change
             t1 = nxt.t_written
-            excused = any(t0 - 1e-9 <= f[0] <= t1 + 1e-9 for f in c.fault_log) or \
-                any(t0 - 1e-9 <= e["t"] <= t1 + 1e-9 for e in sub_changes) or \
+            # a change made while this rebalance attempt was under way (since the member's previous
+            # group request: revoke callback, JoinGroup in flight) also voids the reply
+            tw = seq[i - 1].t_written if i > 0 else 0.0
+            excused = any(tw - 1e-9 <= f[0] <= t1 + 1e-9 for f in c.fault_log) or \
+                any(tw - 1e-9 <= e["t"] <= t1 + 1e-9 for e in sub_changes) or \
                 any(e["kind"] == "killed" and e["member"] == tag for e in obs.events) or \
                 any(e["kind"] == "stop_call" and e["member"] == tag and e["t"] <= t1 + 1e-9 for e in obs.events)
             # metadata changes (partition counts / topics) between reply and next request
@@ -133,7 +136,7 @@ def evaluate(case, obs):
     if joins:
         out.fail("stays_stable", "join_group_after_convergence", {"joins": joins[:6], "window": [t_conv, t_stable]})
     if obs.hung:
-        out.fail("converges", "member_did_not_stop", {"members": obs.hung})
+        out.label("member_did_not_stop")       # termination of stop() is C19's subject
     # ---- non-triviality
     coord_fault = any(isinstance(f[1], dict) and (f[1].get("sel") in ("join", "sync", "heartbeat", "offset_commit", "offset_fetch",
                                                                        "find_coordinator") or f[1].get("ev") == "move_group_coord")
@@ -179,9 +182,11 @@ def strategy(focus="membership"):
                "session_timeout_ms": draw(st.sampled_from([600, 1000, 2000])),
                "heartbeat_interval_ms": draw(st.sampled_from([50, 100, 200])),
                "rebalance_timeout_ms": draw(st.sampled_from([800, 1500, 3000])),
-               "retry_backoff_ms": draw(st.sampled_from([10, 50])), "request_timeout_ms": draw(st.sampled_from([300, 800])),
+               "retry_backoff_ms": draw(st.sampled_from([10, 50])), "request_timeout_ms": 0,
                "auto_commit": draw(st.booleans()), "auto_commit_interval_ms": draw(st.sampled_from([50, 200, 500])),
                "metadata_max_age_ms": draw(st.sampled_from([300, 1000]))}
+        # as with the defaults (40 s vs 30 s) a JoinGroup must be allowed to wait for the whole rebalance
+        cfg["request_timeout_ms"] = cfg["rebalance_timeout_ms"] + draw(st.sampled_from([300, 1000]))
         nm = draw(st.integers(1, 4))
         members = []
         for i in range(nm):
@@ -242,5 +247,5 @@ def strategy(focus="membership"):
 
 def campaigns(tier):
     th = tier == "thorough"
-    return [Campaign("group_sim", "hyp", execute=execute, strategy=strategy, examples=12000 if th else 500,
+    return [Campaign("group_sim", "hyp", execute=execute, strategy=strategy, examples=12000 if th else 640,
                      setup=GS.setup, max_wall=1000 if th else 110, shrink_wall=40)]
